@@ -33,3 +33,19 @@ Definition emit_behaviour (nanfix dofix : bool) (st : store) (v : value) (calls 
                    | Some v' => call_show (st ++ [None])%list v' [("f", v')] c
                    | None => "NOFUN"
                    end) calls).
+
+(* the same when the session that created the function had a non-empty `inputs` record (the reloaded function
+   runs in a fresh session whose inputs hold only the function) *)
+Definition emit_behaviour_in (inputs : value) (nanfix dofix : bool) (st : store) (v : value) (calls : list expr)
+  : string :=
+  let reloaded :=
+    match emit_ast nanfix dofix v with
+    | Some e => reload_ast (Datatypes.length st) e
+    | None => None
+    end in
+  join " " (map (fun c =>
+                   call_show st v (match inputs with VRec r => r | _ => [] end) c ++ "/" ++
+                   match reloaded with
+                   | Some v' => call_show (st ++ [None])%list v' [("f", v')] c
+                   | None => "NOFUN"
+                   end) calls).
